@@ -10,6 +10,10 @@ R3 temp files: the only file-creating call of the sorter is mkstemp in the chunk
 R4 per-chunk fold: qsort by key before the loop, neighbours folded iff keys compare equal,
    every entry freed exactly once (written or folded).
 R5 final merge gets the sorter's merge function and every reader, after the join.
+R6 width agreement (rules/widths.py): the buffered-bytes total and the memory limit are 64 bits
+   wide and no value derived from them is converted to fewer bits (a 32-bit total wraps at 4 GiB and
+   a larger limit is then never reached).
+R7 closure pairing (rules/closures.py): the sorter's merge function is called and forwarded with its own closure.
 """
 import re
 from .common import *
@@ -230,3 +234,14 @@ def run(ctx, res):
             body_calls = [x for x in walk(L["body"]) if x["k"] == "CallExpr" and x.get("callee") == "mtbl_merger_add_source"]
             okl = bool(z) and len(body_calls) == 1
     res.check(okl, "C06.R5", site(si, "all-readers"), "every chunk reader becomes a source of the final merger", "not every chunk reader is added to the final merger", si.loc(si.body))
+
+    # ---- R6 width agreement: the byte total and the limit it is compared with are both 64 bits wide ----
+    from . import widths
+    res.floor("C06.R6", 2)
+    widths.width_flow(ctx, res, "C06.R6", "C06")
+    widths.selftest(ctx, "C06")
+
+    # ---- closure pairing ----------------------------------------------------------------------
+    from . import closures
+    res.floor("C06.R7", 1)
+    closures.check(ctx, res, "C06.R7", ('mtbl_sorter_options',))
